@@ -88,6 +88,20 @@ pub fn run(ctx: &mut Ctx) {
             push(ctx, 10, &format!("client S, announced modulus #{}", pi), &[&bb, &x, &a, &uu, &[g], n], out);
             push(ctx, 12, &format!("client public key, announced modulus #{}", pi), &[&a, &[g], n], pk_out(catch(|| hk::calculate_client_public_key(a, g, *n))));
         }
+        // base B - k*g^x that is 0 or a NEGATIVE MULTIPLE of the modulus (B = 3v mod N' with 3v < N' / 3v >= N'):
+        // the specified S is 0 for every exponent, odd or even
+        for r in 0..(if ctx.quick() { 6 } else { 24 }) {
+            let g = if r % 2 == 0 { 7 } else { *rng.pick(&gens) };
+            let (x, a, uu): ([u8; 20], [u8; 32], [u8; 20]) = (rng.arr(), rng.arr(), rng.arr());
+            let nz = bi(n);
+            if nz <= num_bigint::BigInt::from(1) { continue; }
+            let v = num_bigint::BigInt::from(g).modpow(&bi(&x), &nz);
+            let kv = num_bigint::BigInt::from(3) * &v;
+            let bb = le32b(&modp(&kv, &nz));
+            let class = if kv >= nz { "negative multiple of the modulus" } else { "zero" };
+            let out = match catch(|| hk::calculate_client_s(bb, x, a, uu, g, *n)) { Some(s) => vec![vec![0], s.to_vec()], None => vec![vec![2]] };
+            push(ctx, 10, &format!("client S, base B - k*g^x is {}", class), &[&bb, &x, &a, &uu, &[g], n], out);
+        }
         // through the public client API (B must be a valid key w.r.t. the built-in modulus)
         let g = if pi % 2 == 0 { 7 } else { *rng.pick(&gens) };
         let (u, p) = (rand_cred(&mut rng, 1 + pi % 16), rand_cred(&mut rng, 16 - pi % 16));
